@@ -99,7 +99,10 @@ def r01_1_filter(ctx, m, func, rule):
 
 
 def r01_1_search(ctx, m):
-    f = m.search
+    from ..core import local_defs, normal, same_func
+
+    f = normal(ctx.repo, m.search)
+    sdefs = local_defs(f.node)
     if len(f.params) != 5:
         raise AnalysisError("R01.1", f.where(), "interval search does not have the (intervals, query_start, query_end, start, end) signature")
     iv, qs, qe, lo, hi = f.params
@@ -109,17 +112,25 @@ def r01_1_search(ctx, m):
     mid = mids[0].targets[0].id
     seg = f"{iv}[{mid}]"
 
-    def atom_of(e):
+    def atom_of(e, depth=0):
         e0 = cc.strip_int(e)
         t = norm(e0)
         if t == f"{seg}.tags['SO'][1]":
             return "s"
-        if isinstance(e0, ast.BinOp) and isinstance(e0.op, ast.Add) and {norm(cc.strip_int(e0.left)), norm(cc.strip_int(e0.right))} == {f"{seg}.tags['SO'][1]", f"{seg}.tags['LN'][1]"}:
-            return "e"
+        if isinstance(e0, ast.BinOp) and isinstance(e0.op, ast.Add):
+            l, r = cc.strip_int(e0.left), cc.strip_int(e0.right)
+            if {norm(l), norm(r)} == {f"{seg}.tags['SO'][1]", f"{seg}.tags['LN'][1]"}:
+                return "e"
+            if (atom_of(l, depth + 1) == "s" and norm(r) == f"{seg}.tags['LN'][1]") or (atom_of(r, depth + 1) == "s" and norm(l) == f"{seg}.tags['LN'][1]"):
+                return "e"
         if t == qs:
             return "qs"
         if t == qe:
             return "qe"
+        if isinstance(e0, ast.Name) and depth < 3 and e0.id not in f.params:
+            d = sdefs.get(e0.id, [])
+            if len(d) == 1 and d[0] is not None:
+                return atom_of(d[0], depth + 1)
         return None
 
     wloops = [w for w in f.node.body if isinstance(w, ast.While)]
@@ -137,7 +148,7 @@ def r01_1_search(ctx, m):
         if p.term != "return" or p.term_node.value is None:
             return "none"
         v = p.term_node.value
-        if isinstance(v, ast.Call) and ctx.repo.resolve_call(f, v) is f:
+        if isinstance(v, ast.Call) and same_func(ctx.repo.resolve_call(f, v), f):
             a = [norm(x) for x in v.args]
             if a[:3] != [iv, qs, qe]:
                 return "bad-args"
@@ -302,11 +313,20 @@ def r01_5(ctx, m):
         raise AnalysisError("R01.5", f.where(call), "merge call is not inside a loop")
     iv = norm(loop.target)
     it = loop.iter
-    if not (isinstance(it, ast.Call) and norm(it.func) == "range" and len(it.args) == 1):
-        raise AnalysisError("R01.5", f.where(loop), "fold loop is not `for i in range(len(list) - 1)`")
-    mm = norm(it.args[0])
-    src_list = mm[4:].split(")")[0] if mm.startswith("len(") else None
-    ok_range = mm == f"len({src_list}) - 1"
+    slice_form = isinstance(it, ast.Subscript) and isinstance(it.slice, ast.Slice) and isinstance(loop.target, ast.Tuple) and len(loop.target.elts) == 2
+    if slice_form:
+        # for node, orient in L[1:]
+        src_list = norm(it.value)
+        mm = norm(it)
+        ok_range = const_value(it.slice.lower) == 1 and it.slice.upper is None and it.slice.step is None
+        nxt = [norm(e) for e in loop.target.elts]
+    else:
+        if not (isinstance(it, ast.Call) and norm(it.func) == "range" and len(it.args) == 1):
+            raise AnalysisError("R01.5", f.where(loop), "fold loop is neither `for i in range(len(list) - 1)` nor `for node, orient in list[1:]`")
+        mm = norm(it.args[0])
+        src_list = mm[4:].split(")")[0] if mm.startswith("len(") else None
+        ok_range = mm == f"len({src_list}) - 1"
+        nxt = [f"{src_list}[{iv} + 1][0]", f"{src_list}[{iv} + 1][1]"]
     from ..core import local_defs, resolve_expr
 
     ldefs = local_defs(ast.Module(body=loop.body, type_ignores=[]))
@@ -317,7 +337,7 @@ def r01_5(ctx, m):
     for st in f.node.body:
         if isinstance(st, ast.Assign) and isinstance(st.targets[0], ast.Name) and norm(st.value) == f"[{src_list}[0]]":
             acc = st.targets[0].id
-    want = [f"{acc}[-1][0]", f"{src_list}[{iv} + 1][0]", f"{acc}[-1][1]", f"{src_list}[{iv} + 1][1]"]
+    want = [f"{acc}[-1][0]", nxt[0], f"{acc}[-1][1]", nxt[1]]
     ctx.check(ok_range and acc is not None and args == want, "R01.5", f.where(call), "the fold merges the accumulated run (last output element) with the next input node, over all consecutive pairs", key_of(f, f"fold-args:{args}"), args=args, expected=want, range=mm)
     if acc is None:
         return
@@ -335,12 +355,12 @@ def r01_5(ctx, m):
         fail_body, ok_body = (st.body, st.orelse) if (t == f"{res} is False" and pol) or (t == res and not pol) or (t == f"{res} == False" and pol) else (st.orelse, st.body)
         fb = [norm(s) for s in fail_body]
         ob = [norm(s) for s in ok_body]
-        n2 = [k for k, v in local.items() if v == want[1]]
-        o2 = [k for k, v in local.items() if v == want[3]]
-        n1 = [k for k, v in local.items() if v == want[0]]
-        o1 = [k for k, v in local.items() if v == want[2]]
-        emit_ok = any(".to_string(" in s and "+=" in s and (n1 and n1[0] in s) and (o1 and o1[0] in s) for s in fb)
-        app_ok = any(s == f"{acc}.append([{n2[0]}, {o2[0]}])" for s in fb) if n2 and o2 else False
+        n2 = [k for k, v in local.items() if v == want[1]] + [want[1]]
+        o2 = [k for k, v in local.items() if v == want[3]] + [want[3]]
+        n1 = [k for k, v in local.items() if v == want[0]] + [want[0]]
+        o1 = [k for k, v in local.items() if v == want[2]] + [want[2]]
+        emit_ok = any(("+=" in s or (".append(" in s and not s.startswith(acc + "."))) and any(x in s for x in n1) and any(x in s for x in o1) for s in fb)
+        app_ok = any(s == f"{acc}.append([{a}, {b}])" for s in fb for a in n2 for b in o2)
         rep_ok = ob == [f"{acc}[-1] = {res}"]
         ok = emit_ok and app_ok and rep_ok
         detail = {"on_failure": fb, "on_success": ob}
@@ -722,15 +742,59 @@ def r01_46_unstable(ctx, m):
         if first_set is not None:
             n_first += 1
     ctx.check(badl is None, "R01.4", f.where(site.loop), "bare contig: the path length grows by e - s for exactly the segments that are appended to the path", key_of(f, f"length-accumulation:{badl[1] if badl else ''}"), **({"path": badl[0].show(), "why": badl[1]} if badl else {}))
-    # orientation of emission: reversed(...) exactly under orient == '<'
-    revs = [n for n in walk_own(f.node) if isinstance(n, ast.For) and isinstance(n.iter, ast.Call) and norm(n.iter.func) == "reversed"]
-    ok = False
-    if revs:
-        g = guards_of(f.node, revs[0])
-        ok = any(canon_test(t, pol)[0].endswith("== '<'") and canon_test(t, pol)[1] for t, pol in g)
-        fw = [n for n in walk_own(f.node) if isinstance(n, ast.For) and norm(n.iter) == norm(revs[0].iter.args[0])]
-        ok = ok and len(fw) == 1
-    ctx.check(ok, "R01.4", f.where(), "segments of a reverse-orientation interval are emitted in reversed order, forward ones in SO order", key_of(f, "reversed-emission"))
+    # orientation of emission: the kept segments are reversed exactly under orient == '<'
+    seglist = norm(site.append.value.func.value)
+    sites = []  # (node, kind) of every reversal of the segment list
+    for n in walk_own(f.node):
+        if isinstance(n, ast.Call) and isinstance(n.func, ast.Name) and n.func.id == "reversed" and n.args and norm(n.args[0]) == seglist:
+            sites.append((n, "reversed()"))
+        if isinstance(n, ast.Call) and isinstance(n.func, ast.Attribute) and n.func.attr == "reverse" and norm(n.func.value) == seglist:
+            sites.append((n, ".reverse()"))
+        if isinstance(n, ast.Subscript) and norm(n.value) == seglist and isinstance(n.slice, ast.Slice) and n.slice.step is not None and const_value(n.slice.step) == -1 and n.slice.lower is None and n.slice.upper is None:
+            sites.append((n, "[::-1]"))
+    if not sites:
+        ctx.violated("R01.4", f.where(), "the segments found for an interval are never reversed: a reverse-orientation interval is emitted in forward order", key_of(f, "reversed-emission:none"))
+    else:
+        verdict = None
+        for n, kind in sites:
+            stmt = _stmt_of(f, n)
+            loopvars = {nm for lp in walk_own(f.node) if isinstance(lp, ast.For) and stmt is not None and any(x is stmt for x in ast.walk(lp)) for nm in names_in(lp.target)}
+
+            def orient_cmp(t):
+                while isinstance(t, ast.UnaryOp) and isinstance(t.op, ast.Not):
+                    t = t.operand
+                return isinstance(t, ast.Compare) and len(t.ops) == 1 and isinstance(t.ops[0], (ast.Eq, ast.NotEq)) and const_value(t.comparators[0]) in ("<", ">") and isinstance(t.left, ast.Name) and t.left.id not in loopvars
+
+            gs = [(canon_test(t, pol)) for t, pol in guards_of(f.node, stmt) if orient_cmp(t)] if stmt is not None else []
+            # a conditional expression around the reversal: (reversed(L) if orient == '<' else L)
+            for ife in walk_own(f.node):
+                if isinstance(ife, ast.IfExp):
+                    if any(x is n for x in ast.walk(ife.body)) and orient_cmp(ife.test):
+                        gs.append(canon_test(ife.test, True))
+                    elif any(x is n for x in ast.walk(ife.orelse)) and orient_cmp(ife.test):
+                        gs.append(canon_test(ife.test, False))
+            under_rev = any((t.endswith("== '<'") and pol) or (t.endswith("== '>'") and not pol) for t, pol in gs)
+            under_fwd = any((t.endswith("== '>'") and pol) or (t.endswith("== '<'") and not pol) for t, pol in gs)
+            if under_fwd:
+                verdict = (False, f"{kind} of the segment list happens for forward ('>') intervals")
+                break
+            if not under_rev:
+                orient_tests = [t for t, _ in gs if "'<'" in t or "'>'" in t]
+                if not gs or not orient_tests:
+                    verdict = (False, f"{kind} of the segment list is not conditional on the interval's orientation")
+                    break
+                raise AnalysisError("R01.4", f.where(n), f"cannot read the orientation guard of the reversal: {gs}")
+            verdict = verdict or (True, kind)
+        ctx.check(verdict[0], "R01.4", f.where(), "segments of a reverse-orientation interval are emitted in reversed order, forward ones in SO order", key_of(f, f"reversed-emission:{verdict[1]}"), how=verdict[1])
+
+
+def _stmt_of(f, node):
+    best = None
+    for st in walk_stmts(f.node.body):
+        if any(x is node for x in ast.walk(st)):
+            if best is None or any(x is st for x in ast.walk(best)):
+                best = st
+    return best
 
 
 def r01_8(ctx):
